@@ -95,15 +95,24 @@ enum {
   OP_N_OLD,
   /* enlarged alphabet */
   OP_OBS0B = OP_N_OLD, OP_OBS0Q, OP_DISC0, OP_TREQ, OP_TREQREF, OP_TREL, OP_TOBS, OP_TOBSB, OP_TCLOSE, OP_TRELEASE,
+  /* multicast alphabet */
+  OP_MCAST, OP_JUMP_1S,
   OP_N
 };
 static const char *op_names[] = {"req(p0)", "req(p1)", "req(p2)", "req(p3)", "req+ref(p0)", "rel(p0)", "obs(p0)", "cancel(p0)", "async(p1)", "trig", "chg", "jump(T-1)", "jump(T+1)", "quiet(p0)", "quiet(p2)",
-                                 "obs2(p0)", "obsq(p0)", "disc(p0)", "treq(t0)", "treq+ref(t0)", "rel(t0)", "tobs(t0)", "tobs2(t0)", "tclose(t0)", "trelease(t0)"};
+                                 "obs2(p0)", "obsq(p0)", "disc(p0)", "treq(t0)", "treq+ref(t0)", "rel(t0)", "tobs(t0)", "tobs2(t0)", "tclose(t0)", "trelease(t0)",
+                                 "mcast(m0)", "jump(1s)"};
 /* the "xops" spaces: every new operation plus the old ones that interact with p0 / t0 / reclamation */
 static const int xops[] = {OP_REQ0, OP_REQ1, OP_REQREF0, OP_REL0, OP_OBS0, OP_CANCEL0, OP_CHG, OP_JUMP_PAST,
                            OP_OBS0B, OP_OBS0Q, OP_DISC0, OP_TREQ, OP_TREQREF, OP_TREL, OP_TOBS, OP_TOBSB, OP_TCLOSE, OP_TRELEASE};
 #define XOP_N ((int)(sizeof xops / sizeof xops[0]))
-#define NPEER 4               /* UDP peers p0..p3 */
+/* the "mops" spaces: a NON request of peer m0 to the multicast group the first endpoint's port listens on; its response is held
+ * back for a random leisure (RFC 7252 8.2, up to 5 s) in the send queue: a queued message is the only holder of m0's session
+ * until virtual time passes the leisure.  Operations that move time, create other sessions (eviction) and reclaim. */
+static const int mops[] = {OP_MCAST, OP_REQ0, OP_REQ1, OP_REQ2, OP_JUMP_1S, OP_JUMP_BEFORE, OP_JUMP_PAST, OP_QUIET0};
+#define MOP_N ((int)(sizeof mops / sizeof mops[0]))
+#define NPEER 5               /* UDP peers p0..p3, m0 (talks to the multicast group only) */
+#define P_M0 4
 #define MAXT 8                /* TCP connections of t0 per case (one per operation at most) */
 #define NSLOT (NPEER + MAXT)  /* model slots: one per UDP peer, one per TCP connection */
 #define TIMEOUT_S 5
@@ -117,6 +126,7 @@ struct msess {
   const coap_session_t *ptr;
   uint64_t last;
   int app_refs, obs /* set of OB_* */, async;
+  int queued; /* responses held back in the send queue (multicast leisure) */
   int new_events, del_events;
   int tcp;      /* slot of a TCP connection */
   int gone;     /* TCP: the connection has ended (peer closed it / sent Release); UDP: the application declared the
@@ -126,7 +136,8 @@ struct msess {
 static struct msess M[NSLOT];
 static coap_context_t *ctx;
 static coap_address_t srv[3], peer[NSLOT];
-static int peer_ep[NSLOT] = {0, 0, 0, 1};
+static int peer_ep[NSLOT] = {0, 0, 0, 1, 0};
+static coap_address_t grp;
 static coap_resource_t *r_plain, *r_obs, *r_obs2, *r_async;
 static coap_session_t *held_ref;   /* the application's reference on p0's session */
 static coap_session_t *held_ref_t; /* the application's reference on a session of t0 */
@@ -178,7 +189,7 @@ nslots(void) {
 }
 static const char *
 pname(int p) {
-  static const char *const n[NSLOT] = {"p0", "p1", "p2", "p3", "t0#0", "t0#1", "t0#2", "t0#3", "t0#4", "t0#5", "t0#6", "t0#7"};
+  static const char *const n[NSLOT] = {"p0", "p1", "p2", "p3", "m0", "t0#0", "t0#1", "t0#2", "t0#3", "t0#4", "t0#5", "t0#6", "t0#7"};
   return p >= 0 && p < NSLOT ? n[p] : "?";
 }
 static int
@@ -194,12 +205,13 @@ peer_of_session(const coap_session_t *s) {
 }
 static int
 held(const struct msess *m) {
-  return m->app_refs || m->obs || m->async;
+  return m->app_refs || m->obs || m->async || m->queued;
 }
 static const char *
 holders(const struct msess *m) {
-  static char b[60];
-  snprintf(b, sizeof b, "%s%s%s", m->app_refs ? "app-reference," : "", m->obs ? "observation," : "", m->async ? "async-entry," : "");
+  static char b[80];
+  snprintf(b, sizeof b, "%s%s%s%s", m->app_refs ? "app-reference," : "", m->obs ? "observation," : "", m->async ? "async-entry," : "",
+           m->queued ? "queued-message," : "");
   if (!b[0])
     snprintf(b, sizeof b, "none");
   return b;
@@ -295,8 +307,13 @@ raw_rx(const ns_dgram_t *d) {
   /* responses / notifications arriving at a peer: the session was active at this instant */
   for (int p = 0; p < NPEER; p++)
     if (ns_addr_host(&d->dst) == ns_addr_host(&peer[p]) && ns_addr_port(&d->dst) == ns_addr_port(&peer[p]) &&
-        ns_addr_port(&d->src) == ns_addr_port(&srv[peer_ep[p]]))
+        ns_addr_port(&d->src) == ns_addr_port(&srv[peer_ep[p]])) {
       M[p].last = d->sent_at;
+      if (p == P_M0 && M[p].queued && m.tkl == 1 && m.token[0] == 0x70) {
+        M[p].queued--; /* the held-back response has left the send queue */
+        vxp_count(12, 1);
+      }
+    }
   if (m.type == 0) { /* Confirmable notification / separate response: acknowledge */
     uint8_t ack[4] = {0x60, 0, (uint8_t)(m.mid >> 8), (uint8_t)m.mid};
     ns_inject(&d->dst, &d->src, ack, 4);
@@ -346,7 +363,7 @@ model_arrival(int p) {
     }
     exp_new[p] = 1;
     M[p].alive = 1;
-    M[p].app_refs = M[p].obs = M[p].async = 0;
+    M[p].app_refs = M[p].obs = M[p].async = M[p].queued = 0;
     M[p].was_disc = 0;
   }
   M[p].gone = 0; /* traffic on a session the application had declared failed: it is in use again */
@@ -610,9 +627,21 @@ do_op(int op) {
       coap_resource_notify_observers(r_obs2, NULL);
     pump();
     break;
+  case OP_MCAST: {
+    struct w_buf w;
+    uint8_t tok = 0x70;
+    model_arrival(P_M0);
+    M[P_M0].queued++;
+    w_begin(&w, 1, 1, next_mid++, &tok, 1);
+    w_opt_add(&w, 11, "r", 1);
+    ns_inject(&peer[P_M0], &grp, w.b, w.n);
+    pump();
+    break;
+  }
+  case OP_JUMP_1S:
   case OP_JUMP_BEFORE:
   case OP_JUMP_PAST: {
-    uint64_t dt = op == OP_JUMP_BEFORE ? TIMEOUT_S * 1000 - 1000 : TIMEOUT_S * 1000 + 1000;
+    uint64_t dt = op == OP_JUMP_1S ? 1000 : op == OP_JUMP_BEFORE ? TIMEOUT_S * 1000 - 1000 : TIMEOUT_S * 1000 + 1000;
     ns_advance(dt);
     model_reclaim();
     pump();
@@ -692,12 +721,12 @@ one_case(uint64_t idx, void *arg) {
   uint64_t x = idx;
   opseq[0] = 0;
   size_t ol = 0;
-  int nalpha = sp->ext ? XOP_N : OP_N_OLD, any_new = 0;
+  int nalpha = sp->ext == 2 ? MOP_N : sp->ext ? XOP_N : OP_N_OLD, any_new = 0;
   for (int i = 0; i < sp->depth; i++) {
     ops[i] = (int)(x % (uint64_t)nalpha);
     if (sp->ext)
-      ops[i] = xops[ops[i]];
-    any_new |= ops[i] >= OP_N_OLD;
+      ops[i] = sp->ext == 2 ? mops[ops[i]] : xops[ops[i]];
+    any_new |= sp->ext == 2 ? ops[i] == OP_MCAST : ops[i] >= OP_N_OLD;
     x /= (uint64_t)nalpha;
     size_t nl = strlen(op_names[ops[i]]);
     if (i)
@@ -710,7 +739,7 @@ one_case(uint64_t idx, void *arg) {
     return;
   }
   max_idle = sp->max_idle;
-  ext = sp->ext;
+  ext = sp->ext == 1;
   failed = 0;
   trace_len = 0;
   trace[0] = 0;
@@ -743,6 +772,8 @@ one_case(uint64_t idx, void *arg) {
   ns_addr(&peer[1], 12, 6001);
   ns_addr(&peer[2], 11, 6002);
   ns_addr(&peer[3], 11, 6001);
+  ns_addr(&peer[P_M0], 14, 6001);
+  ns_addr(&grp, 224, 5683);
   r_plain = coap_resource_init(coap_make_str_const("r"), 0);
   coap_register_request_handler(r_plain, COAP_REQUEST_GET, hnd);
   coap_add_resource(ctx, r_plain);
@@ -855,6 +886,15 @@ main(int argc, char **argv) {
    * enlarged alphabet (18 operations): every depth 1..4 (thorough 1..5) x max_idle_sessions {0,1,2}.
    * Run order: small spaces first, the largest last, so a slow machine loses the tail of the largest space only. */
   const int d_old = 5, d_ext = T ? 5 : 4;
+  /* multicast alphabet (8 operations): every depth 1..5 (thorough 1..6) x max_idle_sessions {0,1,2} */
+  for (int d = 1; d <= (T ? 6 : 5); d++)
+    for (int mi = 0; mi < 3; mi++) {
+      snprintf(sp[nsp].name, sizeof sp[nsp].name, "mops:depth=%d:max_idle=%d", d, mi);
+      sp[nsp].depth = d;
+      sp[nsp].max_idle = mi;
+      sp[nsp].ext = 2;
+      nsp++;
+    }
   for (int pass = 0; pass < 4; pass++)
     for (int d = 1; d <= 6; d++)
       for (int mi = 0; mi < 3; mi++) {
@@ -890,7 +930,7 @@ main(int argc, char **argv) {
   }
   uint64_t total = 0;
   for (int i = 0; i < nsp; i++) {
-    uint64_t n = ipow(sp[i].ext ? (uint64_t)XOP_N : OP_N_OLD, sp[i].depth);
+    uint64_t n = ipow(sp[i].ext == 2 ? (uint64_t)MOP_N : sp[i].ext ? (uint64_t)XOP_N : OP_N_OLD, sp[i].depth);
     struct vxp_config c = {.space = sp[i].name, .total = n};
     struct vxp_stats st;
     vxp_enumerate(&c, one_case, &sp[i], &st);
@@ -909,6 +949,12 @@ main(int argc, char **argv) {
   vx_ev_int("disconnects_of_a_session_with_application_reference", (long long)vxp_counter(10));
   vx_ev_int("cases_with_a_disconnect", (long long)vxp_counter(8));
   vx_ev_int("sessions_reclaimed_before_timeout_after_disconnect", (long long)vxp_counter(3));
+  vx_ev_int("multicast_responses_released_after_leisure", (long long)vxp_counter(12));
+  vx_ev_str("mops", T ? "(mops) all sequences of depth 1..6 x max_idle_sessions {0,1,2} over 8 operations that contain the first one: {NON request of peer m0 to "
+                        "the multicast group (the response waits for a random leisure of up to 5 s in the send queue: a queued message is the only holder of "
+                        "the session), request p0 / p1 / p2, jump 1 s / timeout-1s / timeout+1s, unanswered datagram from p0}; the model counts a queued "
+                        "response as a holder until it is seen on the wire"
+                      : "(mops) as in thorough, depth 1..5");
   vx_ev_rule(T ? "(ops) all operation sequences of depth 1..6 x max_idle_sessions {0,1,2} "
                  "over 15 operations {request from 4 UDP peers (distinct address, same address other port, "
                  "same address+port on a second endpoint), request whose handler takes an application reference, release, observe register/cancel, "
